@@ -569,20 +569,20 @@ func (c *Ctx) lookupWrapper(call *ast.CallExpr, formats []string) (isWrapper, fi
 	// filtered: every error return after the consultation is guarded by the negated not-found test
 	filtered = true
 	nerr := 0
-	c.walkWithIfStack(gfd.Body, func(nd ast.Node, ifs []*ast.IfStmt) {
+	ast.Inspect(gfd.Body, func(nd ast.Node) bool {
 		rs, ok := nd.(*ast.ReturnStmt)
 		if !ok || rs.Pos() < inner.End() || len(rs.Results) == 0 {
-			return
+			return true
 		}
 		last := rs.Results[len(rs.Results)-1]
 		if isNilIdent(c, last) {
-			return
+			return true
 		}
 		nerr++
 		okGuard := false
-		for _, i := range ifs {
-			cst, neg := c.notFoundTest(i.Cond)
-			if cst != "" && neg {
+		for _, cl := range c.literalsAt(gfd, rs) {
+			cst, neg := c.notFoundTest(cl.e)
+			if cst != "" && neg != cl.neg {
 				for _, f := range formats {
 					if strings.HasPrefix(f, cst) {
 						okGuard = true
@@ -593,6 +593,7 @@ func (c *Ctx) lookupWrapper(call *ast.CallExpr, formats []string) (isWrapper, fi
 		if !okGuard {
 			filtered = false
 		}
+		return true
 	})
 	if nerr == 0 {
 		filtered = false
